@@ -72,6 +72,35 @@ Section RrBridge.
      `end() != it`, an early return on the miss ... all reduce by computation *)
   Ltac lookup A := unfold mit_find, mit_second; unf; proj; cbn [mit_eqb negb bind]; rewrite ?A; cbn [mit_eqb negb bind].
 
+  (* ---- vectors: reads of cells of updated vectors, lengths of updated vectors, two stores into different cells ---- *)
+  Lemma nth_error_upd_at A (l : list A) i j x : j = i -> i < List.length l -> nth_error (upd_nth i x l) j = Some x.
+  Proof. intros ->. apply nth_error_upd_same. Qed.
+  Lemma upd_nth_comm A (l : list A) i j x y : i <> j -> upd_nth i x (upd_nth j y l) = upd_nth j y (upd_nth i x l).
+  Proof.
+    revert i j. induction l as [|a r IH]; intros [|i] [|j] Ne; simpl; auto; try congruence.
+    f_equal. apply IH. congruence.
+  Qed.
+  (* a read of a cell of a vector after stores: the store into the same cell (the indices equal by arithmetic) gives the
+     stored value, a store into another cell is skipped; lengths of updated vectors are the length of the vector *)
+  Ltac upd1 :=
+    match goal with
+    | |- context [List.length (upd_nth _ _ _)] => rewrite upd_nth_length
+    | |- context [nth_error (upd_nth ?i ?x ?l) ?j] =>
+        first [ rewrite (nth_error_upd_nth_neq _ l i j x) by lia
+              | rewrite (nth_error_upd_at _ l i j x) by (rewrite ?upd_nth_length; lia) ]
+    end.
+  Ltac norm2 := repeat (first [ progress norm | upd1 ]).
+  (* two final states: the same record up to the order of two stores into different cells of a vector *)
+  Ltac same_state :=
+    try reflexivity;
+    repeat match goal with
+           | |- context [upd_nth ?i ?x (upd_nth ?j ?y ?l)] =>
+               lazymatch goal with
+               | |- context [upd_nth j y (upd_nth i x l)] => rewrite (upd_nth_comm _ l i j x y) by lia
+               end
+           end;
+    try reflexivity.
+
   (* ---- do_erase ---- *)
   Lemma g_do_erase_ok (s : gst) (i : nat) :
     req (g_do_erase s i) (do l <- l_do_erase true (rs_st s) i; Ok (W l (rs_rng s))).
@@ -83,22 +112,16 @@ Section RrBridge.
     (* m_open_list_end - 1 *)
     destruct (Nat.eq_dec (l_end l) 0) as [Z|NZ]; norm; [simpl; auto|].
     (* is the element the last one of the open list? *)
-    destruct (Nat.eq_dec (e_pos e) (l_end l - 1)) as [Ep|Np]; norm; [tail|].
-    destruct (nth_error (l_open l) (e_pos e)) as [a|] eqn:Na; norm; [|simpl; auto].
-    destruct (nth_error (l_open l) (l_end l - 1)) as [b|] eqn:Nb; norm; [|simpl; auto].
-    (* after the swap the slot at the position of e is the one that was last *)
-    assert (Sw : nth_error (upd_nth (l_end l - 1) a (upd_nth (e_pos e) b (l_open l))) (e_pos e) = Some b).
-    { rewrite nth_error_upd_nth_neq by auto. apply nth_error_upd_same. eapply nth_error_in; eauto. }
-    norm.
-    destruct (nth_error (l_elems l) b) as [mv|] eqn:Nm; norm; [|simpl; auto].
-    pose proof (nth_error_in _ _ _ _ Nm) as Lb. norm.
+    destruct (Nat.eq_dec (e_pos e) (l_end l - 1)) as [Ep|Np]; norm; [solve [tail]|].
+    (* the two cells of the open list that are exchanged (in whatever order the program reads them) *)
+    destruct (nth_error (l_open l) (e_pos e)) as [a|] eqn:Na; destruct (nth_error (l_open l) (l_end l - 1)) as [b|] eqn:Nb;
+      norm; try (simpl; auto; fail).
+    pose proof (nth_error_in _ _ _ _ Na) as La. pose proof (nth_error_in _ _ _ _ Nb) as Lb. norm2.
+    (* the element that was swapped out of the last in-use slot *)
+    destruct (nth_error (l_elems l) b) as [mv|] eqn:Nm; norm2; [|simpl; auto].
+    pose proof (nth_error_in _ _ _ _ Nm) as Lm. norm2.
     (* the cell element_idx after the back-pointer fix-up: the same index iterator *)
-    assert (Q : exists e', nth_error (upd_nth b {| e_keyed := e_keyed mv; e_pos := e_pos e; e_val := e_val mv |} (l_elems l)) i = Some e'
-                           /\ e_keyed e' = e_keyed e).
-    { destruct (Nat.eq_dec i b) as [->|Nib].
-      - rewrite nth_error_upd_same by auto. eexists; split; [reflexivity|]. simpl. congruence.
-      - rewrite nth_error_upd_nth_neq by auto. eauto. }
-    destruct Q as (e' & Q1 & Q2). norm. rewrite ?Q2. tail.
+    destruct (Nat.eq_dec i b) as [Eib|Nib]; [subst i; assert (mv = e) by congruence; subst mv|]; norm2; tail; same_state.
   Qed.
 
   (* ---- do_prune: one draw from [0, m_open_list_end - 1], consumed only when the cache is not empty ---- *)
